@@ -10,11 +10,14 @@ from harness.worker import Stream
 
 OBLIGATIONS = [
     "PgmVerif.C18_same_equiv", "PgmVerif.C18_closure_extensive", "PgmVerif.C18_closure_closed",
-    "PgmVerif.C18_ci_product_form", "PgmVerif.C18_iequiv_refl_symm",
+    "PgmVerif.C18_ci_product_form", "PgmVerif.C18_iequiv_refl_symm", "PgmVerif.C18_closure_sound",
+    "PgmVerif.C18_closure_semantically_sound", "PgmVerif.CI_decomposition", "PgmVerif.CI_weak_union", "PgmVerif.CI_contraction",
 ]
-PARTIAL = ["closure = semi-graphoid derivability: the model's closure is proved extensive and closed under the rule step; minimality (nothing "
-           "underivable is added) and the comparison with the implementation are exhaustive over all assertion sets of <= 2 assertions on 4 "
-           "variables plus random larger sets",
+PARTIAL = ["closure = semi-graphoid derivability: the model's closure is proved extensive, closed under the rule step and minimal (every member "
+           "is derivable, C18_closure_sound) and semantically sound (C18_closure_semantically_sound: every member holds in every non-negative "
+           "table that satisfies the input, via kernel-checked decomposition / weak union / contraction / symmetry); completeness of the "
+           "semi-graphoid rules for probabilistic independence does not hold in general (Studeny) and is not claimed; the "
+           "comparison with the implementation is exhaustive over all assertion sets of <= 2 assertions on 4 variables plus random larger sets",
            "same skeleton + same v-structures <=> same d-separation statements (Verma-Pearl) is confirmed exhaustively in the model for all "
            "pairs of DAGs on <= 3 nodes and sampled pairs on 4 nodes, not proved"]
 RULE = ("closure/entails/is_equivalent: every set of <=2 disjoint assertions over 4 variables (exhaustive) and random sets of 3; "
@@ -25,12 +28,14 @@ ASSUMPTIONS = ["assertions have pairwise disjoint, non-empty X and Y; tables are
 BUDGET_QUICK = 100
 LEVEL_TEXT = ("Kernel-checked: equality of assertions up to symmetry is an equivalence relation; the model's closure contains its input and is "
               "closed under symmetry, decomposition, weak union and contraction steps (fixed point reached within the fuel bound of the "
-              "finite universe); the product test P(x,y,z)P(z)=P(x,z)P(y,z) characterises conditional independence for a product-form "
+              "finite universe), at every stage contains only assertions derivable from the input by those rules (minimality), and - for EVERY non-negative "
+              "joint table over any variables and cardinalities in which the input assertions hold - every assertion of the closure holds in "
+              "that table (the four semi-graphoid rules are proved for finite distributions, zero cells included); the product test P(x,y,z)P(z)=P(x,z)P(y,z) characterises conditional independence for a product-form "
               "table; I-equivalence of the model is reflexive and symmetric. The implementation (closure, entails, is_equivalent, "
               "is_iequivalent, check_independence, get_independencies, minimal_imap, is_imap) is compared with the model exhaustively on small "
               "universes; Verma-Pearl equivalence with d-separation is confirmed exhaustively in the model (partial).")
 LEVEL_NOTE = "Trusted: Lean kernel + standard axioms; model; harness."
-TECHNIQUE = "Lean 4 proof (closure fixed point, symmetry quotient, CI product test) + exhaustive differential check on small universes"
+TECHNIQUE = "Lean 4 proof (semi-graphoid rules valid in every distribution, closure sound / minimal / closed, symmetry quotient) + exhaustive differential check on small universes"
 
 VARS = ["A", "B", "C", "D"]
 
